@@ -718,6 +718,28 @@ fn find_client_mut_by_addr(clients: &mut [Option<Connection>], addr: SocketAddr)
     })
 }
 
+/// Verification hooks (feature `verif`).
+#[cfg(feature = "verif")]
+impl NetcodeServer {
+    /// Addresses with a half-open (pending) connection, with the client id recorded for each. Coverage accounting only.
+    pub fn verif_pending(&self) -> Vec<(SocketAddr, u64)> {
+        let mut v: Vec<(SocketAddr, u64)> = self.pending_clients.iter().map(|(a, c)| (*a, c.client_id)).collect();
+        v.sort();
+        v
+    }
+
+    /// Emulates a session that has already sent `sequence` packets to this client.
+    pub fn verif_set_client_sequence(&mut self, client_id: u64, sequence: u64) -> bool {
+        match find_client_mut_by_id(&mut self.clients, client_id) {
+            Some(c) => {
+                c.sequence = sequence;
+                true
+            }
+            None => false,
+        }
+    }
+}
+
 #[cfg(test)]
 mod tests {
     use crate::{client::NetcodeClient, token::ConnectToken, ClientAuthentication};
